@@ -4,6 +4,7 @@ import Mathlib.Tactic.FieldSimp
 import Mathlib.Tactic.Ring
 import Mathlib.Tactic.Linarith
 import Mathlib.Tactic.Positivity
+import Ndt.Gen.Dea3
 /-!
 # C13 — dea3 recovers the limit of a geometric transient and never produces garbage
 
@@ -182,5 +183,11 @@ theorem dea3Call_plain (c : Consts K) (v0 v1 v2 : List K) :
 /-! ### non-vacuity: a concrete geometric triple is outside the guard -/
 example : ¬ @dea3Converged ℚ ratNum (⟨1/1000000, 0, 1/10000, 10⟩ : Consts ℚ) (0 + 1) (0 + 1 * (1/2)) (0 + 1 * (1/2) * (1/2)) := by
   decide +kernel
+
+/-- **the elementwise body of `dea3` regenerated from the source on this run is the model these theorems are about** — for
+every carrier, so also for the Float instance the driver compares bit for bit with numpy -/
+theorem dea3_generated {K : Type} [Num K] (c : Consts K) (a b d : K) : Gen.dea3_elem c a b d = dea3 c a b d := by
+  unfold Gen.dea3_elem dea3
+  simp only [or_assoc]
 
 end Ndt
